@@ -6,29 +6,17 @@ set_option linter.unusedSimpArgs false
 GoSetLemmas — vocabulary and loop lemmas for `GoSet.lean` (the in-place edits `Iter.Set*`).
 
 * `SimSet` relates an outcome of the interpreter on a regenerated `Set*` syntax tree to a result of the hand model.
-* `View1` / `View2` / `ViewN`: the *only* place where the hand model and the Go source can disagree.  Go bounds-checks
-  `i.tape.Tape[k]` against the length of the iterator's view (`lim`), the model (`wr`, `set2`, `nopFill`) against the
-  underlying array.  The predicates say that the highest index written lies inside the view, or outside the array
-  (then both panic); what they exclude is an index in `[lim, tape.size)`, where Go panics and the model writes.
+* Go bounds-checks `i.tape.Tape[k]` against the length of the iterator's view (`lim`); so does the hand model
+  (`Iter.wrV`, used by `set2`, `setBool`, `setNull`, `nopFillV`), which keeps the check against the underlying array in
+  addition.  With `lim ≤ tape.size` (the view is a prefix of the tape) the two agree on every index.
 * arithmetic of the conversions (`uint64(int)`, `uint64(len(..))`, `i.cur - uint64(j)`).
-* the model side of the writes (`set2_ok`, `set2_panic`, `wr_ok`, `wr_panic`, `nopFill_*`).
+* the model side of the writes (`set2_ok`, `set2_panic`, `wrV_ok`, `wrV_panic`, `nopFillV_*`).
 * the `for j := i.off; j < int(i.cur); j++` loop of `SetNull` run by the interpreter (`nopLoop_ok`, `nopLoop_panic`).
 -/
 namespace SJ.GoSet
 open SJ SJ.GoSem SJ.Generated SJ.GoIter
 
 /-! ## vocabulary -/
-
-/-- one word written (`tape[off-1]`): the index is inside the view, or outside the array -/
-def View1 (pj : PJ) (i : Iter) : Prop := i.off ≤ i.lim ∨ pj.tape.size < i.off
-
-/-- two words written (`tape[off-1]`, `tape[off]`): the highest index is inside the view, or outside the array -/
-def View2 (pj : PJ) (i : Iter) : Prop := i.off < i.lim ∨ pj.tape.size ≤ i.off
-
-/-- `tape[off-1]` and `tape[off .. cur)` written: the highest index `max off cur - 1` is inside the view, or outside
-    the array -/
-def ViewN (pj : PJ) (i : Iter) : Prop :=
-  max i.off i.cur.toNat ≤ i.lim ∨ pj.tape.size < max i.off i.cur.toNat
 
 /-- outcome of the interpreter on a `Set*` function vs result of the model, started from `pj`, `i`:
     * model `.ok (pj', i')`: the function returns `nil`; tape, string buffer and receiver are those of the model; the
@@ -71,42 +59,64 @@ theorem wr_panic {α} (a : Array α) (k : Nat) (v : α) (h : a.size ≤ k) : wr 
   have : ¬ k < a.size := by omega
   simp [wr, this]
 
-theorem set2_ok (pj : PJ) (i : Iter) (w0 w1 : UInt64) (h0 : 1 ≤ i.off) (h : i.off < pj.tape.size) :
+/-- a write inside the view (and the array) -/
+theorem wrV_ok (lim : Nat) (a : Array UInt64) (k : Nat) (v : UInt64) (hv : k < lim) (h : k < a.size) :
+    Iter.wrV lim a k v = .ok (a.set k v h) := by simp [Iter.wrV, wr, hv, h]
+
+/-- a write beyond the view (or beyond the array) panics -/
+theorem wrV_panic (lim : Nat) (a : Array UInt64) (k : Nat) (v : UInt64) (h : lim ≤ k ∨ a.size ≤ k) :
+    Iter.wrV lim a k v = .panic := by
+  by_cases hv : k < lim
+  · have : ¬ k < a.size := by omega
+    simp [Iter.wrV, wr, hv, this]
+  · simp [Iter.wrV, hv]
+
+theorem set2_ok (pj : PJ) (i : Iter) (w0 w1 : UInt64) (h0 : 1 ≤ i.off) (hv : i.off < i.lim) (h : i.off < pj.tape.size) :
     Iter.set2 pj i w0 w1 =
       .ok { pj with tape := (pj.tape.set (i.off - 1) w0 (by omega)).set i.off w1 (by simp; omega) } := by
   have h1 : i.off - 1 < pj.tape.size := by omega
+  have hv1 : i.off - 1 < i.lim := by omega
   have h2 : ¬ i.off = 0 := by omega
-  simp [Iter.set2, wr, h, h1, h2]
+  simp [Iter.set2, Iter.wrV, wr, h, h1, h2, hv, hv1]
 
-theorem set2_panic (pj : PJ) (i : Iter) (w0 w1 : UInt64) (h : i.off = 0 ∨ pj.tape.size ≤ i.off) :
+/-- `set2` panics as soon as its second index is outside the view (as Go does: at `off - 1` if that is outside too,
+    else at `off`, after the first write) -/
+theorem set2_panic (pj : PJ) (i : Iter) (w0 w1 : UInt64) (h : i.off = 0 ∨ i.lim ≤ i.off ∨ pj.tape.size ≤ i.off) :
     Iter.set2 pj i w0 w1 = .panic := by
   by_cases h0 : i.off = 0
   · simp [Iter.set2, h0]
-  · have h2 : ¬ i.off < pj.tape.size := by omega
-    by_cases h1 : i.off - 1 < pj.tape.size <;> simp [Iter.set2, wr, h0, h1, h2]
+  · simp only [Iter.set2, h0, if_false]
+    by_cases h1 : i.off - 1 < i.lim ∧ i.off - 1 < pj.tape.size
+    · rw [wrV_ok _ _ _ _ h1.1 h1.2]
+      simp only [Res.bind_ok]
+      rw [wrV_panic _ _ _ _ (by simp only [Array.size_set]; omega)]
+      rfl
+    · rw [wrV_panic _ _ _ _ (by omega)]
+      rfl
 
-theorem nopFill_lt (tape : Array UInt64) (lo hi : Nat) (h : lo < hi) :
-    Iter.nopFill tape lo hi =
-      (wr tape lo (mkWord tagNop (UInt64.ofNat (hi - lo))) >>= fun t => Iter.nopFill t (lo + 1) hi) := by
-  rw [Iter.nopFill]; simp [h]
+theorem nopFillV_lt (lim : Nat) (tape : Array UInt64) (lo hi : Nat) (h : lo < hi) :
+    Iter.nopFillV lim tape lo hi =
+      (Iter.wrV lim tape lo (mkWord tagNop (UInt64.ofNat (hi - lo))) >>= fun t => Iter.nopFillV lim t (lo + 1) hi) := by
+  rw [Iter.nopFillV]; simp [h]
 
-theorem nopFill_ge (tape : Array UInt64) (lo hi : Nat) (h : ¬ lo < hi) : Iter.nopFill tape lo hi = .ok tape := by
-  rw [Iter.nopFill]; simp [h]
+theorem nopFillV_ge (lim : Nat) (tape : Array UInt64) (lo hi : Nat) (h : ¬ lo < hi) :
+    Iter.nopFillV lim tape lo hi = .ok tape := by
+  rw [Iter.nopFillV]; simp [h]
 
-/-- a non-empty fill that reaches beyond the array panics (possibly after writing a part) -/
-theorem nopFill_panic : ∀ (n lo hi : Nat) (tape : Array UInt64), hi - lo ≤ n → lo < hi → tape.size < hi →
-    Iter.nopFill tape lo hi = .panic := by
+/-- a non-empty fill that reaches beyond the view panics (at the first index outside, after writing the earlier ones) -/
+theorem nopFillV_panic (lim : Nat) : ∀ (n lo hi : Nat) (tape : Array UInt64), hi - lo ≤ n → lo < hi → lim < hi →
+    Iter.nopFillV lim tape lo hi = .panic := by
   intro n
   induction n with
   | zero => intro lo hi tape h1 h2; omega
   | succ n ih =>
     intro lo hi tape h1 h2 h3
-    rw [nopFill_lt _ _ _ h2]
-    by_cases hs : lo < tape.size
-    · rw [wr_ok _ _ _ hs]
+    rw [nopFillV_lt _ _ _ _ h2]
+    by_cases hs : lo < lim ∧ lo < tape.size
+    · rw [wrV_ok _ _ _ _ hs.1 hs.2]
       simp only [Res.bind_ok]
-      exact ih _ _ _ (by omega) (by omega) (by simpa using h3)
-    · rw [wr_panic _ _ _ (by omega)]; rfl
+      exact ih _ _ _ (by omega) (by omega) h3
+    · rw [wrV_panic _ _ _ _ (by omega)]; rfl
 
 /-! ## the NOP fill loop of `SetNull`, run by the interpreter -/
 
@@ -126,11 +136,11 @@ def envL (i : Iter) (strs : Bytes) (j : Int) : Env :=
   [("i.off", .int i.off), ("i.addNext", .int i.addNext), ("i.cur", .u64 i.cur), ("i.t", .u8 i.t), ("i.lim", .int i.lim),
    ("Strings.B", .bytes strs), ("j", .int j)]
 
-/-- the end of the fill lies in the view: the loop is the model's `nopFill`; `cur - j + 1` units of fuel suffice -/
+/-- the end of the fill lies in the view: the loop is the model's `nopFillV`; `cur - j + 1` units of fuel suffice -/
 theorem nopLoop_ok (i : Iter) (strs : Bytes) (hcur : i.cur.toNat < 2^63) :
     ∀ (n j : Nat) (tape : Array UInt64) (fuel : Nat), i.cur.toNat - j ≤ n → n + 1 ≤ fuel →
       (j < i.cur.toNat → i.cur.toNat ≤ i.lim) → i.lim ≤ tape.size →
-      ∃ t', Iter.nopFill tape j i.cur.toNat = .ok t' ∧
+      ∃ t', Iter.nopFillV i.lim tape j i.cur.toNat = .ok t' ∧
         exec1 goFuns fuel nopLoop { env := envL i strs j, tape := tape } =
           .normal { env := envL i strs (max j i.cur.toNat : Nat), tape := t' } := by
   intro n
@@ -140,7 +150,7 @@ theorem nopLoop_ok (i : Iter) (strs : Bytes) (hcur : i.cur.toNat < 2^63) :
     obtain ⟨f, rfl⟩ : ∃ f, fuel = f + 1 := ⟨fuel - 1, by omega⟩
     have hj : ¬ j < i.cur.toNat := by omega
     have hj' : ¬ ((j : Int) < i.cur.toNat) := by omega
-    refine ⟨tape, nopFill_ge _ _ _ hj, ?_⟩
+    refine ⟨tape, nopFillV_ge _ _ _ _ hj, ?_⟩
     have hm : max j i.cur.toNat = j := by omega
     simp [nopLoop, envL, toInt64_small _ hcur, hj', hm]
   | succ n ih =>
@@ -153,7 +163,7 @@ theorem nopLoop_ok (i : Iter) (strs : Bytes) (hcur : i.cur.toNat < 2^63) :
       obtain ⟨t', ht', he⟩ := ih (j + 1) (tape.set j (mkWord tagNop (UInt64.ofNat (i.cur.toNat - j))) hs) f
         (by omega) (by omega) (fun _ => h3 hj) (by simpa using h4)
       refine ⟨t', ?_, ?_⟩
-      · rw [nopFill_lt _ _ _ hj, wr_ok _ _ _ hs]; exact ht'
+      · rw [nopFillV_lt _ _ _ _ hj, wrV_ok _ _ _ _ hb.1 hs]; exact ht'
       · have hm : max (j + 1) i.cur.toNat = max j i.cur.toNat := by omega
         rw [hm] at he
         simp only [nopLoop, envL] at he
@@ -161,7 +171,7 @@ theorem nopLoop_ok (i : Iter) (strs : Bytes) (hcur : i.cur.toNat < 2^63) :
         simp [mkWord, tagNop] at he
         exact he
     · have hj' : ¬ ((j : Int) < i.cur.toNat) := by omega
-      refine ⟨tape, nopFill_ge _ _ _ hj, ?_⟩
+      refine ⟨tape, nopFillV_ge _ _ _ _ hj, ?_⟩
       have hm : max j i.cur.toNat = j := by omega
       simp [nopLoop, envL, toInt64_small _ hcur, hj', hm]
 
